@@ -123,6 +123,33 @@ impl_eng!(ark_test_curves::bls12_381::Bls12_381, "test_curves_bls12_381", 4, bls
 impl_eng!(ark_bn254::Bn254, "bn254", 4, bn_model::<ark_bn254::Config>());
 impl_eng!(ark_bw6_761::BW6_761, "bw6_761", 3, bw6_model::<ark_bw6_761::Config>());
 impl_eng!(ark_bw6_767::BW6_767, "bw6_767", 3, bw6_model::<ark_bw6_767::Config>());
+
+/// BW6-761 instantiated through the *provided* methods of `BW6Config` only: every constant and type is taken
+/// from the shipped configuration, but `final_exponentiation_hard_part` is not overridden, i.e. the generic
+/// hard part for `T_MOD_R_IS_ZERO = false` runs - the code a user-defined BW6 curve gets (the shipped BW6-761
+/// overrides it with an addition chain and BW6-767 takes the other branch).
+#[derive(PartialEq, Eq)]
+pub struct Generic761;
+impl ark_ec::bw6::BW6Config for Generic761 {
+    const X: <Self::Fp as ark_ff::PrimeField>::BigInt = <ark_bw6_761::Config as ark_ec::bw6::BW6Config>::X;
+    const X_IS_NEGATIVE: bool = <ark_bw6_761::Config as ark_ec::bw6::BW6Config>::X_IS_NEGATIVE;
+    const X_MINUS_1_DIV_3: <Self::Fp as ark_ff::PrimeField>::BigInt = <ark_bw6_761::Config as ark_ec::bw6::BW6Config>::X_MINUS_1_DIV_3;
+    const ATE_LOOP_COUNT_1: &'static [u64] = <ark_bw6_761::Config as ark_ec::bw6::BW6Config>::ATE_LOOP_COUNT_1;
+    const ATE_LOOP_COUNT_1_IS_NEGATIVE: bool = <ark_bw6_761::Config as ark_ec::bw6::BW6Config>::ATE_LOOP_COUNT_1_IS_NEGATIVE;
+    const ATE_LOOP_COUNT_2: &'static [i8] = <ark_bw6_761::Config as ark_ec::bw6::BW6Config>::ATE_LOOP_COUNT_2;
+    const ATE_LOOP_COUNT_2_IS_NEGATIVE: bool = <ark_bw6_761::Config as ark_ec::bw6::BW6Config>::ATE_LOOP_COUNT_2_IS_NEGATIVE;
+    const TWIST_TYPE: ark_ec::bw6::TwistType = <ark_bw6_761::Config as ark_ec::bw6::BW6Config>::TWIST_TYPE;
+    const H_T: i64 = <ark_bw6_761::Config as ark_ec::bw6::BW6Config>::H_T;
+    const H_Y: i64 = <ark_bw6_761::Config as ark_ec::bw6::BW6Config>::H_Y;
+    const T_MOD_R_IS_ZERO: bool = <ark_bw6_761::Config as ark_ec::bw6::BW6Config>::T_MOD_R_IS_ZERO;
+    type Fp = <ark_bw6_761::Config as ark_ec::bw6::BW6Config>::Fp;
+    type Fp3Config = <ark_bw6_761::Config as ark_ec::bw6::BW6Config>::Fp3Config;
+    type Fp6Config = <ark_bw6_761::Config as ark_ec::bw6::BW6Config>::Fp6Config;
+    type G1Config = <ark_bw6_761::Config as ark_ec::bw6::BW6Config>::G1Config;
+    type G2Config = <ark_bw6_761::Config as ark_ec::bw6::BW6Config>::G2Config;
+}
+pub type Bw6Generic761 = ark_ec::bw6::BW6<Generic761>;
+impl_eng!(Bw6Generic761, "bw6_761 (provided hard part)", 3, bw6_model::<Generic761>());
 impl_eng!(ark_mnt4_298::MNT4_298, "mnt4_298", 4, MNT4);
 impl_eng!(ark_mnt4_753::MNT4_753, "mnt4_753", 1, MNT4);
 impl_eng!(ark_mnt6_298::MNT6_298, "mnt6_298", 4, MNT6);
@@ -185,6 +212,7 @@ pub fn items(args: &Args) -> Vec<Item> {
     engine!(ark_mnt4_753::MNT4_753);
     engine!(ark_bw6_767::BW6_767);
     engine!(ark_bw6_761::BW6_761);
+    engine!(Bw6Generic761);
     engine!(ark_mnt6_298::MNT6_298);
     engine!(ark_mnt4_298::MNT4_298);
     engine!(ark_bls12_381::Bls12_381);
